@@ -234,6 +234,14 @@ def accept(root, log):
 # ----------------------------------------------------------------------------- interpreter
 
 
+FUEL = 100000
+MAX_EVENTS = 50000
+
+
+class OutOfFuel(RuntimeError):
+    pass
+
+
 class Break(Exception):
     pass
 
@@ -296,6 +304,7 @@ class Interp:
         # behaviour (used only to decide whether a disagreement IS that finding); model_hits counts how often it mattered
         self.model_known = model_known
         self.model_hits = 0
+        self.steps = 0
 
     # -- scoping (names are unique by construction in Engine A's generator; see vf/props/c06 for shadowing)
     def lookup(self, name, sc):
@@ -338,6 +347,10 @@ class Interp:
         return v
 
     def ev(self, e, sc):
+        self.steps += 1
+        if self.steps > FUEL:
+            # generated loops are bounded by counters; only a reduced (shrunk) candidate can get here, and valid() rejects it
+            raise OutOfFuel("reference interpreter exceeded %d evaluation steps" % FUEL)
         k = e[0]
         if k == "lit":
             return e[1]
@@ -658,6 +671,12 @@ class XBOOM(BaseException):
     payload = 0
 
 
+class XRUNAWAY(BaseException):
+    """raised by the harness when a run logs more than MAX_EVENTS effects (the reference never does: see FUEL)"""
+
+    payload = 0
+
+
 def BOOM():
     raise XBOOM()
 
@@ -674,6 +693,8 @@ class Harness:
     def hit(self, eid):
         self.log.append(eid)
         self.n += 1
+        if self.n > MAX_EVENTS:
+            raise XRUNAWAY()
         if self.n in self.fault:
             raise _EXC[self.fault[self.n]](-eid)
 
@@ -774,6 +795,8 @@ class Compiled:
         ref = interpret(self.prog, self.mode, fault)
         try:
             real = self.run(fault)
+        except XRUNAWAY:
+            return ("real-run-runaway", dict(source=self.src, fault=fault, error="more than %d effects logged; the reference terminates" % MAX_EVENTS))
         except Exception as e:  # noqa
             return ("real-run-raised:" + type(e).__name__, dict(source=self.src, fault=fault, error=str(e)[:300]))
         r = _judge(self.src, ref, real, fault)
@@ -878,6 +901,27 @@ def _par_children(n):
     return []
 
 
+def _jumps_out(x, loop=False, fn=False):
+    """does x contain a break/continue not inside a loop of x, or a return not inside a function of x?"""
+    if not isinstance(x, list):
+        return False
+    if x and isinstance(x[0], str):
+        k = x[0]
+        if k in ("break", "continue"):
+            return not loop
+        if k == "return":
+            return not fn or _jumps_out(x[1], loop, fn)
+        if k == "fn":
+            return _jumps_out(x[2], False, True)
+        if k == "while":
+            return _jumps_out(x[1], loop, fn) or _jumps_out(x[2], True, fn) or _jumps_out(x[3], loop, fn)
+        if k == "for":
+            return _jumps_out(x[2], loop, fn) or _jumps_out(x[3], True, fn) or _jumps_out(x[4], loop, fn)
+        if k in ("lit", "eff", "raise", "var"):
+            return False
+    return any(_jumps_out(y, loop, fn) for y in x)
+
+
 def valid(prog):
     """Structural well-formedness + the Par discipline + the reference interpreter runs it without Python-level errors."""
     try:
@@ -886,6 +930,8 @@ def valid(prog):
         binders = []
         for n in _walk(prog):
             k = n[0]
+            if k == "lfor" and _jumps_out(n[2]):
+                return False  # the documentation does not define break/continue/return in a comprehension's iterable
             if k == "try":
                 hs = n[2]
                 for i, h in enumerate(hs):
